@@ -105,7 +105,7 @@ def upd2 (f : Nat → Nat → Nat) (o k v : Nat) : Nat → Nat → Nat := fun i 
 
 /-! ## blocks
 registers of operation `o`: 0 SN, 1 PV, 2 CBF outcome (1 = expire block found the key / arrive block inserted),
-3 destination known, 4 "an LS request has to go out", 5/6 flush loop, 7 timer check, 8 popped timer (+1), 9 DPL -/
+3 destination known, 4 "an LS request has to go out", 5/6 flush loop, 7 timer check, 8 popped timer, 9 DPL, 10 a timer was popped -/
 
 /-- `with sequence_number_lock: self.sequence_number = (self.sequence_number + 1) % (2**16 - 1); return it` -/
 def getSN (o : Nat) (s : St) : St :=
@@ -199,13 +199,12 @@ def loctLearn (d : Nat) (s : St) : St := { s with loct := upd s.loct d true }
 /-- `_ls_lock` section of gn_data_indicate_ls_reply -/
 def lsReplyPop (o d : Nat) (s : St) : St :=
   { s with lsTimer := upd s.lsTimer d none, lsCnt := upd s.lsCnt d none,
-           reg := upd2 s.reg o 8 (match s.lsTimer d with | some t => t + 1 | none => 0),
+           reg := upd2 (upd2 s.reg o 8 ((s.lsTimer d).getD 0)) o 10 (if (s.lsTimer d).isSome then 1 else 0),
            regL := upd s.regL o (s.lsBuf d), lsFlight := upd s.lsFlight d (s.lsBuf d ++ s.lsFlight d), lsBuf := upd s.lsBuf d [],
            pending := if s.loct d then upd s.pending d false else s.pending }
 
 /-- `if timer is not None: timer.cancel()` after the section -/
-def lsReplyCancel (o : Nat) (s : St) : St :=
-  if s.reg o 8 = 0 then s else { s with tCancelled := upd s.tCancelled (s.reg o 8 - 1) true }
+def lsReplyCancel (o : Nat) (s : St) : St := { s with tCancelled := upd s.tCancelled (s.reg o 8) true }
 
 /-- one iteration of `for req in buffered: self.gn_data_request_guc(req)`: pick the request (thread-local) -/
 def lsFlushPick (o : Nat) (s : St) : St :=
@@ -243,39 +242,62 @@ inductive Op where
 
 def lkDpl : Lock := 5
 
+/-- tagged instructions: the tags only tell the correspondence driver which steps are invisible to other threads
+(`gblk` with a false guard, `loc`, `nop`); the semantics and all theorems use the erased program -/
+inductive TI where
+  | acq (l : Lock)
+  | rel (l : Lock)
+  | blk (f : St → St)                      -- block reading or writing shared state
+  | gblk (o slot v : Nat) (f : St → St)    -- the same in a branch selected by the thread-local register (o, slot) = v
+  | loc (f : St → St)                      -- touches only registers of its own operation
+  | nop                                    -- code without modelled effect (keeps the lock structure)
+
+def TI.erase : TI → Instr St
+  | .acq l => .acq l
+  | .rel l => .rel l
+  | .blk f => .blk f
+  | .gblk o slot v f => .blk (whenReg o slot v f)
+  | .loc f => .blk f
+  | .nop => .blk id
+
+def tsect (l : Lock) (i : TI) : List TI := [.acq l, i, .rel l]
+/-- a section under `l1` with a nested acquisition of `l2` (LocT lookups made while `_cbf_lock`/`_ls_lock` is held) -/
+def tsect2 (l1 l2 : Lock) (i : TI) : List TI := [.acq l1, i, .acq l2, .nop, .rel l2, .rel l1]
+
 /-- `_send_ls_request_packet`, `Timer(...).start()` and the timer store, guarded by register 4 of `o` -/
-def sendLsReq (o d : Nat) (store : St → St) : List (Instr St) :=
-  sect lkEgo (whenReg o 4 1 (readEgo o)) ++ sect lkSN (whenReg o 4 1 (getSN o)) ++
-  [.blk (whenReg o 4 1 (sendPkt o 3 d true)), .blk (whenReg o 4 1 (timerStart o))] ++ sect lkLs (whenReg o 4 1 store)
+def sendLsReq (o d : Nat) (store : St → St) : List TI :=
+  tsect lkEgo (.gblk o 4 1 (readEgo o)) ++ tsect lkSN (.gblk o 4 1 (getSN o)) ++
+  [.gblk o 4 1 (sendPkt o 3 d true), .gblk o 4 1 (timerStart o)] ++ tsect lkLs (.gblk o 4 1 store)
 
-def flushIter (o d : Nat) : List (Instr St) :=
-  [.blk (lsFlushPick o)] ++ sect lkSN (whenReg o 5 1 (getSN o)) ++ [.blk (whenReg o 5 1 (readEgo o)),
-   .blk (whenReg o 5 1 (lsFlushSend o d))]
+def flushIter (o d : Nat) : List TI :=
+  [.loc (lsFlushPick o)] ++ tsect lkSN (.gblk o 5 1 (getSN o)) ++ [.gblk o 5 1 (readEgo o), .gblk o 5 1 (lsFlushSend o d)]
 
-def compile : Op → List (Instr St)
-  | .sn o => sect lkSN (getSN o)
+def compileT : Op → List TI
+  | .sn o => tsect lkSN (.blk (getSN o))
   | .shb o => [.blk (readEgo o), .blk (sendPkt o 0 o false)]
-  | .gbc o => sect lkSN (getSN o) ++ [.blk (readEgo o), .blk (sendPkt o 1 o true)]
-  | .ego v => sect lkEgo (egoSwap v)
-  | .cbfArrive o k => sect2 lkCbf lkLocT (cbfArrive o k) id id ++ [.blk (whenReg o 2 1 (timerStart o))]
+  | .gbc o => tsect lkSN (.blk (getSN o)) ++ [.blk (readEgo o), .blk (sendPkt o 1 o true)]
+  | .ego v => tsect lkEgo (.blk (egoSwap v))
+  | .cbfArrive o k => tsect2 lkCbf lkLocT (.blk (cbfArrive o k)) ++ [.gblk o 2 1 (timerStart o)]
   | .gbcRx o k =>
-      sect lkLocT id ++ sect lkDpl (dplCheck o k) ++
-      sect2 lkCbf lkLocT (whenReg o 9 1 (cbfArrive o k)) id id ++ [.blk (whenReg o 9 1 (whenReg o 2 1 (timerStart o)))]
+      tsect lkLocT .nop ++ tsect lkDpl (.blk (dplCheck o k)) ++
+      tsect2 lkCbf lkLocT (.gblk o 9 1 (cbfArrive o k)) ++ [.gblk o 9 1 (whenReg o 2 1 (timerStart o))]
   | .cbfFire o k src =>
-      [.blk (timerCheck o src)] ++ sect lkCbf (whenReg o 7 1 (cbfExpire o k)) ++ [.blk (cbfSend o k)]
+      [.blk (timerCheck o src)] ++ tsect lkCbf (.gblk o 7 1 (cbfExpire o k)) ++ [.gblk o 2 1 (cbfSend o k)]
   | .guc o r d =>
-      sect lkLocT (gucLookup o d) ++
+      tsect lkLocT (.blk (gucLookup o d)) ++
       -- known destination: SN, PV, send
-      sect lkSN (whenReg o 3 1 (getSN o)) ++ [.blk (whenReg o 3 1 (readEgo o)), .blk (whenReg o 3 1 (sendPkt o 2 r true))] ++
+      tsect lkSN (.gblk o 3 1 (getSN o)) ++ [.gblk o 3 1 (readEgo o), .gblk o 3 1 (sendPkt o 2 r true)] ++
       -- unknown: location service
-      sect2 lkLs lkLocT (whenReg o 3 0 (lsRegisterOrQueue o r d)) id id ++ sendLsReq o d (lsStoreTimer o d)
+      tsect2 lkLs lkLocT (.gblk o 3 0 (lsRegisterOrQueue o r d)) ++ sendLsReq o d (lsStoreTimer o d)
   | .lsReply o d n =>
-      sect lkLocT (loctLearn d) ++ sect2 lkLs lkLocT (lsReplyPop o d) id id ++ [.blk (lsReplyCancel o)] ++
+      tsect lkLocT (.blk (loctLearn d)) ++ tsect2 lkLs lkLocT (.blk (lsReplyPop o d)) ++ [.gblk o 10 1 (lsReplyCancel o)] ++
       (List.replicate n (flushIter o d)).flatten
   | .lsFire o d src mr =>
-      [.blk (timerCheck o src)] ++ sect2 lkLs lkLocT (whenReg o 7 1 (lsRetransmitCheck mr o d)) id id ++
+      [.blk (timerCheck o src)] ++ tsect2 lkLs lkLocT (.gblk o 7 1 (lsRetransmitCheck mr o d)) ++
       sendLsReq o d (lsStoreTimer' o d)
-  | .purge d => sect lkLocT (loctPurge d)
+  | .purge d => tsect lkLocT (.blk (loctPurge d))
+
+def compile (op : Op) : List (Instr St) := (compileT op).map TI.erase
 
 /-- a thread performs its operations one after the other -/
 def threadProg (ops : List Op) : List (Instr St) := (ops.map compile).flatten
